@@ -180,3 +180,219 @@ class StrQual:
                         base = base.args[0]
                     if isinstance(base, ast.Name) and base.id in self.list_params:
                         self.env[st.target.elts[0].id] = ("LE", ("sorted", base.id))
+
+
+# =============================================================================================
+class QualEval:
+    """Interprocedural qualifier evaluation of the counts parser under an assumption about the qubit-list parameter
+    (None = all qubits measured / given = subset).  Follows calls into repo helpers (depth <= 4); records every
+    construction of an outcome record (a repo class whose constructor has a `bitstring` parameter) as a sink."""
+
+    def __init__(self, prog, counts_names, list_param, assume_none):
+        self.prog = prog
+        self.counts = set(counts_names)
+        self.lp = list_param
+        self.assume_none = assume_none
+        self.sinks = []        # (func, call node, qualifier)
+        self.problems = []     # (func, node, message)
+
+    # -- helpers --------------------------------------------------------------------------
+    def _is_none_test(self, test, lists):
+        if isinstance(test, ast.Compare) and len(test.ops) == 1 and isinstance(test.left, ast.Name) and test.left.id in lists and \
+                isinstance(test.comparators[0], ast.Constant) and test.comparators[0].value is None:
+            if isinstance(test.ops[0], ast.Is):
+                return True
+            if isinstance(test.ops[0], ast.IsNot):
+                return False
+        return None
+
+    def resolve(self, f, call):
+        fn = call.func
+        if isinstance(fn, ast.Name):
+            r = self.prog.lookup_global(f.module, fn.id)
+            if r and r[0] == "func":
+                return r[1], None
+            if r and r[0] == "class":
+                return r[1], "class"
+        if isinstance(fn, ast.Attribute) and isinstance(fn.value, ast.Name) and f.cls is not None and f.params and fn.value.id in (f.params[0], f.cls.name):
+            m = self.prog.find_method(f.cls, fn.attr)
+            if m:
+                return m, "method"
+        return None, None
+
+    # -- evaluation -----------------------------------------------------------------------
+    def run_function(self, f, env, lists, depth=0):
+        """returns the qualifier of the returned value (None if unknown / several)"""
+        rets = []
+        self._block(f, f.node.body, dict(env), set(lists), rets, depth)
+        qs = {repr(q) for q in rets}
+        return rets[0] if len(qs) == 1 and rets else None
+
+    def _block(self, f, stmts, env, lists, rets, depth):
+        for st in stmts:
+            if isinstance(st, ast.If):
+                t = self._is_none_test(st.test, lists)
+                if t is not None:
+                    take_body = (t == self.assume_none)
+                    self._block(f, st.body if take_body else st.orelse, env, lists, rets, depth)
+                    continue
+                e1, e2 = dict(env), dict(env)
+                self._block(f, st.body, e1, lists, rets, depth)
+                self._block(f, st.orelse, e2, lists, rets, depth)
+                for k in set(e1) | set(e2):
+                    env[k] = e1.get(k) if repr(e1.get(k)) == repr(e2.get(k)) else None
+            elif isinstance(st, ast.For):
+                self._bind(f, st.target, st.iter, env, lists, depth)
+                self._block(f, st.body, env, lists, rets, depth)
+            elif isinstance(st, (ast.Assign, ast.AnnAssign)) and getattr(st, "value", None) is not None:
+                tgs = st.targets if isinstance(st, ast.Assign) else [st.target]
+                q = self.q(f, st.value, env, lists, depth)
+                for t in tgs:
+                    if isinstance(t, ast.Name):
+                        env[t.id] = q
+            elif isinstance(st, ast.Return):
+                rets.append(self.q(f, st.value, env, lists, depth) if st.value is not None else None)
+            elif isinstance(st, ast.Expr) and isinstance(st.value, ast.Call) and isinstance(st.value.func, ast.Attribute) and \
+                    st.value.func.attr == "reverse" and isinstance(st.value.func.value, ast.Name):
+                nm = st.value.func.value.id
+                env[nm] = toggle(env.get(nm))
+            elif isinstance(st, (ast.Expr,)):
+                self.q(f, st.value, env, lists, depth)
+            elif isinstance(st, (ast.While, ast.With, ast.Try)):
+                for blk in (getattr(st, "body", []), getattr(st, "orelse", []), getattr(st, "finalbody", [])):
+                    self._block(f, blk, env, lists, rets, depth)
+
+    def _bind(self, f, target, it, env, lists, depth):
+        """for key, value in counts.items() / marginal_counts(counts, idx).items() / for key in counts"""
+        key_target = None
+        if isinstance(target, ast.Tuple) and target.elts and isinstance(target.elts[0], ast.Name):
+            key_target = target.elts[0].id
+        elif isinstance(target, ast.Name):
+            key_target = target.id
+        if key_target is None:
+            return
+        if isinstance(it, ast.Call) and isinstance(it.func, ast.Attribute) and it.func.attr == "items":
+            src = it.func.value
+            if isinstance(src, ast.Name) and src.id in self.counts and isinstance(target, ast.Tuple):
+                env[key_target] = ("LE", "register")
+                return
+            if isinstance(src, ast.Call) and isinstance(src.func, ast.Name) and src.func.id == "marginal_counts" and isinstance(target, ast.Tuple):
+                idx = src.args[1] if len(src.args) > 1 else next((k.value for k in src.keywords if k.arg == "indices"), None)
+                c0 = src.args[0] if src.args else None
+                if isinstance(c0, ast.Name) and c0.id in self.counts:
+                    if idx is None or (isinstance(idx, ast.Constant) and idx.value is None):
+                        env[key_target] = ("LE", "register")
+                    else:
+                        base = idx
+                        while isinstance(base, ast.Call) and isinstance(base.func, ast.Name) and base.func.id in ("list", "tuple", "sorted") and base.args:
+                            base = base.args[0]
+                        if isinstance(base, ast.Name) and base.id in lists:
+                            env[key_target] = ("LE", ("sorted", self.lp))
+                return
+        if isinstance(it, ast.Name) and it.id in self.counts and isinstance(target, ast.Name):
+            env[key_target] = ("LE", "register")
+
+    def q(self, f, e, env, lists, depth):
+        if e is None:
+            return None
+        if isinstance(e, ast.Name):
+            return env.get(e.id)
+        if isinstance(e, (ast.ListComp, ast.GeneratorExp)) and len(e.generators) == 1:
+            g = e.generators[0]
+            sub = dict(env)
+            self._bind(f, g.target, g.iter, sub, lists, depth)
+            self.q(f, e.elt, sub, lists, depth)       # sinks inside the element expression
+            return None
+        if isinstance(e, ast.Subscript) and is_rev_slice(e.slice):
+            return toggle(self.q(f, e.value, env, lists, depth))
+        if isinstance(e, ast.Call):
+            fn = e.func
+            # string-preserving methods
+            if isinstance(fn, ast.Attribute) and fn.attr in ("replace", "strip", "lstrip", "rstrip", "zfill", "rjust", "upper", "lower"):
+                return self.q(f, fn.value, env, lists, depth)
+            if isinstance(fn, ast.Attribute) and fn.attr == "join" and e.args:
+                return self._join(f, e.args[0], e, env, lists, depth)
+            if isinstance(fn, ast.Name) and fn.id == "int" and e.args:
+                base2 = (len(e.args) > 1 and isinstance(e.args[1], ast.Constant) and e.args[1].value == 2) or \
+                    any(k.arg == "base" and isinstance(k.value, ast.Constant) and k.value.value == 2 for k in e.keywords)
+                s = self.q(f, e.args[0], env, lists, depth)
+                if len(e.args) == 1 and not e.keywords:
+                    return s            # int(x) of an integer keeps it
+                if s is None or not base2:
+                    return None
+                if s[0] == "LE":
+                    return ("ILE", s[1])
+                if s[0] == "BE":
+                    return ("IBE", s[1])
+                if s[0] == "ORD":
+                    return ("ILE" if s[2] == "rev" else "IBE", s[1], s[3])
+                return None
+            if isinstance(fn, ast.Name) and fn.id in ("Bitstring", "str", "list", "tuple") and e.args:
+                return self.q(f, e.args[0], env, lists, depth)
+            if isinstance(fn, ast.Attribute) and fn.attr in ("int64", "int32", "uint64") and e.args:
+                return self.q(f, e.args[0], env, lists, depth)
+            if isinstance(fn, ast.Name) and fn.id == "reversed" and e.args:
+                return toggle(self.q(f, e.args[0], env, lists, depth))
+            # repo callee: a sink (outcome record) or a helper to follow
+            g, kind = self.resolve(f, e)
+            if g is not None and kind == "class":
+                init = self.prog.find_method(g, "__init__")
+                if init is not None and "bitstring" in init.params:
+                    arg = e.args[0] if e.args else next((k.value for k in e.keywords if k.arg == "bitstring"), None)
+                    self.sinks.append((f, e, self.q(f, arg, env, lists, depth)))
+                    return None
+            if g is not None and kind in (None, "method") and depth < 4 and not isinstance(g, type(None)) and hasattr(g, "node"):
+                params = g.params[1:] if kind == "method" and not g.is_static else g.params
+                sub_env, sub_lists = {}, set()
+                for i, a in enumerate(e.args):
+                    if i < len(params):
+                        if isinstance(a, ast.Name) and a.id in lists:
+                            sub_lists.add(params[i])
+                        sub_env[params[i]] = self.q(f, a, env, lists, depth)
+                for k in e.keywords:
+                    if k.arg in params:
+                        if isinstance(k.value, ast.Name) and k.value.id in lists:
+                            sub_lists.add(k.arg)
+                        sub_env[k.arg] = self.q(f, k.value, env, lists, depth)
+                # a list parameter not passed keeps its default (None): in the callee it is 'None' regardless of the assumption
+                inner = QualEval(self.prog, [], next(iter(sub_lists), "\0none"), self.assume_none if sub_lists else True)
+                inner.lp_outer = self.lp
+                inner.sinks, inner.problems = self.sinks, self.problems
+                inner._outer_lp_name = self.lp
+                r = inner.run_function(g, sub_env, sub_lists, depth + 1)
+                # qualifiers mention the callee's list-parameter name: translate back
+                return _rename(r, next(iter(sub_lists), None), self.lp)
+            for a in list(e.args) + [k.value for k in e.keywords]:
+                self.q(f, a, env, lists, depth)
+        return None
+
+    def _join(self, f, gen, node, env, lists, depth):
+        if not isinstance(gen, (ast.GeneratorExp, ast.ListComp)) or len(gen.generators) != 1:
+            return None
+        g = gen.generators[0]
+        if not isinstance(g.target, ast.Name) or g.ifs:
+            return None
+        var, it = g.target.id, g.iter
+        order = lst = None
+        if isinstance(it, ast.Name) and it.id in lists:
+            order, lst = "fwd", it.id
+        elif isinstance(it, ast.Call) and isinstance(it.func, ast.Name) and it.func.id == "reversed" and it.args and isinstance(it.args[0], ast.Name) and it.args[0].id in lists:
+            order, lst = "rev", it.args[0].id
+        elif isinstance(it, ast.Subscript) and is_rev_slice(it.slice) and isinstance(it.value, ast.Name) and it.value.id in lists:
+            order, lst = "rev", it.value.id
+        if order is None or not isinstance(gen.elt, ast.Subscript):
+            return None
+        s = self.q(f, gen.elt.value, env, lists, depth)
+        form = index_form(gen.elt.slice, var)
+        if s is None or form is None or s[0] not in ("LE", "BE"):
+            return None
+        sel = "ok" if (s[0], form) in (("BE", "direct"), ("LE", "fromright")) else "mirror"
+        if sel == "mirror":
+            self.problems.append((f, node, f"character selected for list element q is `{ast.unparse(gen.elt)}` on a {'little' if s[0] == 'LE' else 'big'}-endian key: that is the bit of register qubit N-1-q, not q"))
+        return ("ORD", lst, order, sel)
+
+
+def _rename(q, old, new):
+    if q is None or old is None:
+        return q
+    return tuple(new if x == old else (("sorted", new) if x == ("sorted", old) else x) for x in q)
